@@ -129,8 +129,15 @@ def run(chk, replay=None):
                 if f.endswith(".json"):
                     r = json.load(open(os.path.join(cdir, f)))
                     jobs.append((r["gen"][0], r["gen"][1], r["gen"][2], r.get("index")))
+        # independent sub-jobs of at most PER objects (own generator seed each): bounded memory, and a
+        # replay regenerates at most PER objects
+        PER = 5000
         for t in types:
-            jobs.append((chk.seed, COUNTS[t][tier_i], t, None))
+            n, j = COUNTS[t][tier_i], 0
+            while n > 0:
+                jobs.append((chk.seed * 1000 + j, min(PER, n), t, None))
+                n -= PER
+                j += 1
 
     def work(job):
         seed, n, typ, index = job
@@ -142,8 +149,8 @@ def run(chk, replay=None):
         ans = model_answers([o for _, o in objs]) if drv_ok else None
         return job, rc, se, objs, ans, pending
 
-    with cf.ThreadPoolExecutor(min(8, C.NPROC)) as ex:
-        results = list(ex.map(work, jobs))
+    ex = cf.ThreadPoolExecutor(min(8, C.NPROC))
+    results = ex.map(work, jobs)          # consumed (and dropped) one job at a time
 
     ndis = 0
     cross = []
@@ -199,6 +206,7 @@ def run(chk, replay=None):
             if i % 211 == 0:
                 chk.sample({"type": typ, "object": o["ints"][:200], "bytes": bytes.fromhex(o["hex"]).decode("latin1")[:200]
                             if o["hex"] != "-" else "", "oracle": o["verdict"]}, limit=12)
+    ex.shutdown()
     if cross:
         ld = C.build_harness("c12_load", "asan", extra_flags=["-DVERIF_INC=" + inc_hash()])
         def second(typ, o):          # cache: bits of the fresh target; models: problem id; else a target seed
